@@ -214,14 +214,24 @@ def strip_lean_comments(src):
     return re.sub(r"--[^\n]*", "", src)
 
 
+TIE_NAMES = {}
+
+
 def tie_module(rs):
-    return "tables" if rs.startswith("table:") else rs
+    """file name (under lean/JL/Tie) of the tie theorem of a translated function: the Lean name the translator gives it"""
+    if rs.startswith("table:"): return "tables"
+    return TIE_NAMES.get(rs, rs)
 
 
 def tie_side(pid, fn_status, res):
     """the tie theorems `JL.Tie.<fn> : Gen.<fn> = model's <fn>` for the functions behind this property, re-checked against the
     definitions regenerated from the current source; returns the list of tie modules that built"""
     mine = {rs: st for rs, st in fn_status.items() if pid in st.get("props", [])}
+    try:
+        import rs2lean
+        for _, rs_, ln_, _, _ in rs2lean.FUNCS: TIE_NAMES[rs_] = ln_
+    except Exception:
+        pass
     res["tie_functions"] = {}
     built = []
     todo = []
